@@ -1,6 +1,1931 @@
-//! C18 — monitor not built yet.
-use crate::core::Ctx;
+//! C18 — recipients: every intended recipient can decrypt, nobody else gets plaintext.
+//!
+//! Ground truth is known by construction (who was a recipient, which session key each ESK packet
+//! carries, what the payload is); the oracle compares what the public decryption entry points
+//! return with that truth. The reference (`rfc`) is used for packet surgery (deframe / reframe,
+//! recipient-field patching) and to classify SKESK v4 false accepts.
+
+use pgp::composed::{
+    DecryptionOptions, Message, MessageBuilder, PlainSessionKey, RingResult, SignedSecretKey,
+    TheRing,
+};
+use pgp::crypto::aead::{AeadAlgorithm, ChunkSize};
+use pgp::crypto::hash::HashAlgorithm;
+use pgp::crypto::sym::SymmetricKeyAlgorithm;
+use pgp::types::{KeyDetails, Password, S2kParams, Seipdv1ReadMode, StringToKey};
+use rand::seq::SliceRandom;
+use rand::{Rng, RngCore};
+use rand_chacha::ChaCha8Rng;
+use serde_json::{json, Value};
+
+use crate::core::{hexs, Ctx};
+use crate::rfc;
+use crate::rfc::frame::LenForm;
+use crate::shim::{drain_read, Consume};
+use crate::zoo;
+
+// ------------------------------------------------------------------------------------------
+// key pool
+
+struct PoolKey {
+    /// e.g. "EcdhP256/k4"
+    label: String,
+    v6: bool,
+    is_rsa: bool,
+    /// encrypt to the primary key (RSA primary without subkeys) instead of subkey 0
+    enc_primary: bool,
+    plain: SignedSecretKey,
+    /// every secret packet locked with `kpw`
+    locked: SignedSecretKey,
+    /// encryption-relevant packet locked with `kpw`, the other secret packets with another password
+    split: SignedSecretKey,
+    /// unlocked, with foreign encryption subkeys placed in front of the real ones
+    extra: SignedSecretKey,
+    kpw: String,
+    /// recipient identifiers of the encryption (sub)key
+    key_id: Vec<u8>,
+    fpr: Vec<u8>,
+}
+
+struct Pool {
+    keys: Vec<PoolKey>,
+    /// index of a different key of the same algorithm and key version (if any)
+    twin: Vec<Option<usize>>,
+}
+
+fn cheap_s2k(rng: &mut ChaCha8Rng, variant: usize) -> S2kParams {
+    if variant % 2 == 0 {
+        let mut iv = vec![0u8; 16];
+        rng.fill_bytes(&mut iv);
+        S2kParams::Cfb {
+            sym_alg: SymmetricKeyAlgorithm::AES128,
+            s2k: StringToKey::new_iterated(&mut *rng, HashAlgorithm::Sha256, 0),
+            iv: iv.into(),
+        }
+    } else {
+        let mut nonce = vec![0u8; 15];
+        rng.fill_bytes(&mut nonce);
+        S2kParams::Aead {
+            sym_alg: SymmetricKeyAlgorithm::AES128,
+            aead_mode: AeadAlgorithm::Ocb,
+            s2k: StringToKey::new_argon2(&mut *rng, 1, 1, 3),
+            nonce: nonce.into(),
+        }
+    }
+}
+
+fn lock_key(
+    k: &SignedSecretKey,
+    pw_primary: &str,
+    pw_sub: &str,
+    rng: &mut ChaCha8Rng,
+    variant: usize,
+) -> SignedSecretKey {
+    let mut k = k.clone();
+    k.primary_key
+        .set_password_with_s2k(&pw_primary.into(), cheap_s2k(rng, variant))
+        .expect("lock primary");
+    for s in k.secret_subkeys.iter_mut() {
+        s.key
+            .set_password_with_s2k(&pw_sub.into(), cheap_s2k(rng, variant + 1))
+            .expect("lock subkey");
+    }
+    k
+}
+
+impl Pool {
+    fn new() -> Pool {
+        let mut specs: Vec<(zoo::Spec, u64)> = vec![];
+        for s in zoo::encryptor_specs(true) {
+            specs.push((s.clone(), 0));
+        }
+        // second instance of every fast algorithm (same-algorithm non-recipients)
+        for s in zoo::encryptor_specs(false) {
+            specs.push((s.clone(), 1));
+        }
+        // RSA primary keys that encrypt with the primary key itself (cached in the zoo)
+        specs.push((zoo::Spec::simple(false, zoo::Alg::Rsa2048, None), 0));
+        specs.push((zoo::Spec::simple(true, zoo::Alg::Rsa2048, None), 0));
+        // donors of foreign subkeys (never recipients)
+        let donor_x = zoo::key(&zoo::Spec::simple(false, zoo::Alg::Ed25519Legacy, Some(zoo::Alg::X25519)), 7);
+        let mut keys = vec![];
+        for (n, (spec, idx)) in specs.iter().enumerate() {
+            let plain = zoo::key(spec, *idx);
+            let enc_primary = spec.enc_sub.is_none();
+            let alg = spec.enc_sub.clone().unwrap_or(spec.primary.clone());
+            let is_rsa = alg == zoo::Alg::Rsa2048;
+            let label = format!(
+                "{:?}{}/k{}",
+                alg,
+                if enc_primary { "-primary" } else { "" },
+                if spec.v6 { 6 } else { 4 }
+            );
+            let kpw = format!("key-pw-{n}");
+            let mut rng = Ctx::fixed_rng("c18.lock", n as u64);
+            let locked = lock_key(&plain, &kpw, &kpw, &mut rng, n);
+            let other = format!("other-{kpw}");
+            let split = if enc_primary {
+                lock_key(&plain, &kpw, &other, &mut rng, n + 1)
+            } else {
+                lock_key(&plain, &other, &kpw, &mut rng, n + 1)
+            };
+            let mut extra = plain.clone();
+            let mut front = vec![donor_x.secret_subkeys[0].clone()];
+            if !is_rsa && !enc_primary {
+                let donor = zoo::key(spec, 7);
+                front.push(donor.secret_subkeys[0].clone());
+            }
+            front.extend(extra.secret_subkeys.drain(..));
+            extra.secret_subkeys = front;
+            let (key_id, fpr) = if enc_primary {
+                let p = plain.primary_key.public_key();
+                (p.legacy_key_id().as_ref().to_vec(), p.fingerprint().as_bytes().to_vec())
+            } else {
+                let p = plain.secret_subkeys[0].key.public_key();
+                (p.legacy_key_id().as_ref().to_vec(), p.fingerprint().as_bytes().to_vec())
+            };
+            keys.push(PoolKey {
+                label,
+                v6: spec.v6,
+                is_rsa,
+                enc_primary,
+                plain,
+                locked,
+                split,
+                extra,
+                kpw,
+                key_id,
+                fpr,
+            });
+        }
+        let mut twin = vec![None; keys.len()];
+        for i in 0..keys.len() {
+            for j in 0..keys.len() {
+                if i != j && keys[i].label == keys[j].label {
+                    twin[i] = Some(j);
+                }
+            }
+        }
+        Pool { keys, twin }
+    }
+
+    fn pick(&self, rng: &mut ChaCha8Rng) -> usize {
+        loop {
+            let i = rng.gen_range(0..self.keys.len());
+            if self.keys[i].is_rsa && rng.gen_bool(0.6) {
+                continue;
+            }
+            return i;
+        }
+    }
+
+    /// a key that is not in `not`
+    fn pick_other(&self, rng: &mut ChaCha8Rng, not: &[usize]) -> usize {
+        loop {
+            let i = self.pick(rng);
+            if !not.contains(&i) {
+                return i;
+            }
+        }
+    }
+}
+
+// ------------------------------------------------------------------------------------------
+// messages
+
+const V1_CIPHERS: [SymmetricKeyAlgorithm; 11] = [
+    SymmetricKeyAlgorithm::IDEA,
+    SymmetricKeyAlgorithm::TripleDES,
+    SymmetricKeyAlgorithm::CAST5,
+    SymmetricKeyAlgorithm::Blowfish,
+    SymmetricKeyAlgorithm::AES128,
+    SymmetricKeyAlgorithm::AES192,
+    SymmetricKeyAlgorithm::AES256,
+    SymmetricKeyAlgorithm::Twofish,
+    SymmetricKeyAlgorithm::Camellia128,
+    SymmetricKeyAlgorithm::Camellia192,
+    SymmetricKeyAlgorithm::Camellia256,
+];
+const V2_CIPHERS: [SymmetricKeyAlgorithm; 3] = [
+    SymmetricKeyAlgorithm::AES128,
+    SymmetricKeyAlgorithm::AES192,
+    SymmetricKeyAlgorithm::AES256,
+];
+const AEADS: [AeadAlgorithm; 3] = [AeadAlgorithm::Eax, AeadAlgorithm::Ocb, AeadAlgorithm::Gcm];
+const S2K_KINDS: [&str; 5] = ["salted", "iter0", "iter96-sha512", "argon2-min", "iter16-sha384"];
+
+fn mk_s2k(kind: usize, rng: &mut ChaCha8Rng) -> StringToKey {
+    match kind % S2K_KINDS.len() {
+        0 => {
+            let mut salt = [0u8; 8];
+            rng.fill_bytes(&mut salt);
+            StringToKey::Salted { hash_alg: HashAlgorithm::Sha256, salt }
+        }
+        1 => StringToKey::new_iterated(&mut *rng, HashAlgorithm::Sha256, 0),
+        2 => StringToKey::new_iterated(&mut *rng, HashAlgorithm::Sha512, 96),
+        3 => StringToKey::new_argon2(&mut *rng, 1, 1, 3),
+        _ => StringToKey::new_iterated(&mut *rng, HashAlgorithm::Sha384, 16),
+    }
+}
+
+#[derive(Clone)]
+struct MsgSpec {
+    v2: bool,
+    sym: SymmetricKeyAlgorithm,
+    aead: AeadAlgorithm,
+    chunk: ChunkSize,
+    /// (pool key, anonymous recipient)
+    keys: Vec<(usize, bool)>,
+    /// (password, s2k kind)
+    pws: Vec<(String, usize)>,
+    payload: Vec<u8>,
+    forced_sk: Option<Vec<u8>>,
+}
+
+impl MsgSpec {
+    fn new(v2: bool, sym: SymmetricKeyAlgorithm, payload: Vec<u8>) -> MsgSpec {
+        MsgSpec {
+            v2,
+            sym,
+            aead: AeadAlgorithm::Ocb,
+            chunk: ChunkSize::default(),
+            keys: vec![],
+            pws: vec![],
+            payload,
+            forced_sk: None,
+        }
+    }
+
+    fn shape(&self, pool: &Pool) -> String {
+        let mut ks: Vec<String> = self
+            .keys
+            .iter()
+            .map(|(k, a)| format!("{}{}", pool.keys[*k].label, if *a { "*" } else { "" }))
+            .collect();
+        ks.sort();
+        let mut ps: Vec<&str> = self.pws.iter().map(|(_, k)| S2K_KINDS[*k % S2K_KINDS.len()]).collect();
+        ps.sort();
+        format!("{}|{}|{}", if self.v2 { "v2" } else { "v1" }, ks.join(","), ps.join(","))
+    }
+}
+
+struct Built {
+    bytes: Vec<u8>,
+    sk: Vec<u8>,
+}
+
+macro_rules! add_recipients {
+    ($b:ident, $pool:ident, $spec:ident, $rng:ident) => {{
+        for (k, anon) in &$spec.keys {
+            let pk = &$pool.keys[*k];
+            let public = pk.plain.to_public_key();
+            let r = match (pk.enc_primary, *anon) {
+                (true, false) => $b.encrypt_to_key(&mut *$rng, &public.primary_key).map(|_| ()),
+                (true, true) => $b.encrypt_to_key_anonymous(&mut *$rng, &public.primary_key).map(|_| ()),
+                (false, false) => $b.encrypt_to_key(&mut *$rng, &public.public_subkeys[0].key).map(|_| ()),
+                (false, true) => $b
+                    .encrypt_to_key_anonymous(&mut *$rng, &public.public_subkeys[0].key)
+                    .map(|_| ()),
+            };
+            r.map_err(|e| format!("encrypt_to_key {}: {e}", pk.label))?;
+        }
+    }};
+}
+
+/// Builds the message with the library's builder. Packet order: SKESKs, PKESKs, SEIPD.
+fn build(pool: &Pool, spec: &MsgSpec, rng: &mut ChaCha8Rng) -> Result<Built, String> {
+    let payload = spec.payload.clone();
+    if spec.v2 {
+        let mut b = MessageBuilder::from_bytes("", payload).seipd_v2(&mut *rng, spec.sym, spec.aead, spec.chunk);
+        if let Some(sk) = &spec.forced_sk {
+            b.set_session_key(sk.clone().into()).map_err(|e| format!("set_session_key: {e}"))?;
+        }
+        add_recipients!(b, pool, spec, rng);
+        for (pw, kind) in &spec.pws {
+            let s2k = mk_s2k(*kind, rng);
+            b.encrypt_with_password(&mut *rng, s2k, &pw.as_str().into())
+                .map_err(|e| format!("encrypt_with_password: {e}"))?;
+        }
+        let sk = b.session_key().as_ref().to_vec();
+        let bytes = b.to_vec(&mut *rng).map_err(|e| format!("to_vec: {e}"))?;
+        Ok(Built { bytes, sk })
+    } else {
+        let mut b = MessageBuilder::from_bytes("", payload).seipd_v1(&mut *rng, spec.sym);
+        if let Some(sk) = &spec.forced_sk {
+            b.set_session_key(sk.clone().into()).map_err(|e| format!("set_session_key: {e}"))?;
+        }
+        add_recipients!(b, pool, spec, rng);
+        for (pw, kind) in &spec.pws {
+            let s2k = mk_s2k(*kind, rng);
+            b.encrypt_with_password(s2k, &pw.as_str().into())
+                .map_err(|e| format!("encrypt_with_password: {e}"))?;
+        }
+        let sk = b.session_key().as_ref().to_vec();
+        let bytes = b.to_vec(&mut *rng).map_err(|e| format!("to_vec: {e}"))?;
+        Ok(Built { bytes, sk })
+    }
+}
+
+/// (tag, body, raw encoded packet) of every packet of a message
+fn split_packets(bytes: &[u8]) -> Result<Vec<(u8, Vec<u8>, Vec<u8>)>, String> {
+    let pk = rfc::frame::deframe(bytes)?;
+    Ok(pk
+        .into_iter()
+        .map(|p| (p.tag, p.body.clone(), bytes[p.offset..p.offset + p.encoded_len].to_vec()))
+        .collect())
+}
+
+/// What is true about a message, by construction.
+#[derive(Clone)]
+struct Truth {
+    v2: bool,
+    payload: Vec<u8>,
+    /// sks[0] is the session key of the data packet: (cipher id, raw key)
+    sks: Vec<(u8, Vec<u8>)>,
+    /// (pool key, index into sks): the key can recover that session key from some PKESK
+    key_holders: Vec<(usize, usize)>,
+    /// (password, index into sks)
+    pw_holders: Vec<(String, usize)>,
+    /// bodies of the v4 SKESK packets in the message
+    skesk4: Vec<Vec<u8>>,
+}
+
+fn skesk4_bodies(bytes: &[u8]) -> Vec<Vec<u8>> {
+    let mut out = vec![];
+    if let Ok(p) = split_packets(bytes) {
+        for (tag, body, _) in p {
+            if tag == 3 && body.first() == Some(&4) {
+                out.push(body);
+            }
+        }
+    }
+    out
+}
+
+impl Truth {
+    fn of(spec: &MsgSpec, built: &Built) -> Truth {
+        Truth {
+            v2: spec.v2,
+            payload: spec.payload.clone(),
+            sks: vec![(u8::from(spec.sym), built.sk.clone())],
+            key_holders: spec.keys.iter().map(|(k, _)| (*k, 0)).collect(),
+            pw_holders: spec.pws.iter().map(|(p, _)| (p.clone(), 0)).collect(),
+            skesk4: skesk4_bodies(&built.bytes),
+        }
+    }
+
+    fn plain_sk(&self, i: usize) -> PlainSessionKey {
+        let (alg, raw) = &self.sks[i];
+        if self.v2 {
+            PlainSessionKey::V6 { key: raw.clone().into() }
+        } else {
+            PlainSessionKey::V3_4 { sym_alg: SymmetricKeyAlgorithm::from(*alg), key: raw.clone().into() }
+        }
+    }
+}
+
+// ------------------------------------------------------------------------------------------
+// presentations
+
+#[derive(Clone, Copy, PartialEq, Eq, Hash, Debug)]
+enum Api {
+    Decrypt,
+    WithKeys,
+    WithPassword,
+    WithSessionKey,
+    Ring(bool),
+}
+
+impl Api {
+    fn name(&self) -> &'static str {
+        match self {
+            Api::Decrypt => "decrypt",
+            Api::WithKeys => "decrypt_with_keys",
+            Api::WithPassword => "decrypt_with_password",
+            Api::WithSessionKey => "decrypt_with_session_key",
+            Api::Ring(true) => "ring-abort",
+            Api::Ring(false) => "ring-noabort",
+        }
+    }
+}
+
+#[derive(Clone, Copy, PartialEq, Eq, Hash, Debug)]
+enum Form {
+    Plain,
+    Locked,
+    Split,
+    Extra,
+}
+const FORMS: [Form; 4] = [Form::Plain, Form::Locked, Form::Split, Form::Extra];
+
+#[derive(Clone)]
+enum SkP {
+    /// session key `i` of the truth (0 = the data key)
+    Id(usize),
+    /// a session key that is not the data key
+    Wrong(&'static str, PlainSessionKey),
+}
+
+#[derive(Clone)]
+struct Pres {
+    api: Api,
+    keys: Vec<(usize, Form)>,
+    key_pws: Vec<String>,
+    msg_pws: Vec<String>,
+    sks: Vec<SkP>,
+    streaming: bool,
+}
+
+impl Pres {
+    fn new(api: Api) -> Pres {
+        Pres { api, keys: vec![], key_pws: vec![], msg_pws: vec![], sks: vec![], streaming: false }
+    }
+
+    /// adds a key together with the key password its form needs
+    fn with_key(mut self, pool: &Pool, k: usize, f: Form) -> Pres {
+        self.keys.push((k, f));
+        if matches!(f, Form::Locked | Form::Split) && !self.key_pws.contains(&pool.keys[k].kpw) {
+            self.key_pws.push(pool.keys[k].kpw.clone());
+        }
+        self
+    }
+
+    fn with_pw(mut self, pw: &str) -> Pres {
+        self.msg_pws.push(pw.to_string());
+        self
+    }
+
+    fn with_sk(mut self, s: SkP) -> Pres {
+        self.sks.push(s);
+        self
+    }
+
+    fn json(&self, pool: &Pool) -> Value {
+        json!({
+            "api": self.api.name(),
+            "keys": self.keys.iter().map(|(k, f)| format!("{}:{:?}", pool.keys[*k].label, f)).collect::<Vec<_>>(),
+            "key_passwords": self.key_pws,
+            "message_passwords": self.msg_pws,
+            "session_keys": self.sks.iter().map(|s| match s {
+                SkP::Id(i) => format!("truth#{i}"),
+                SkP::Wrong(n, k) => format!("wrong:{n}:{}", match k {
+                    PlainSessionKey::V3_4 { sym_alg, key } => format!("v3_4 alg={} key={}", u8::from(*sym_alg), hex::encode(key.as_ref())),
+                    PlainSessionKey::V5 { key } => format!("v5 key={}", hex::encode(key.as_ref())),
+                    PlainSessionKey::V6 { key } => format!("v6 key={}", hex::encode(key.as_ref())),
+                }),
+            }).collect::<Vec<_>>(),
+            "streaming": self.streaming,
+        })
+    }
+}
+
+fn key_usable(pool: &Pool, k: usize, f: Form, key_pws: &[String]) -> bool {
+    match f {
+        Form::Plain | Form::Extra => true,
+        Form::Locked | Form::Split => key_pws.iter().any(|p| *p == pool.keys[k].kpw),
+    }
+}
+
+#[derive(Clone, Copy, PartialEq, Eq, Debug)]
+enum Expect {
+    /// an intended recipient secret is present and nothing conflicts: plaintext required
+    MustPlain,
+    /// no presented secret yields the data key: an error is required, never data
+    MustFail,
+    /// secrets disagree and cross-checking was requested: an error is required
+    ConflictMustFail,
+    /// either the right plaintext or an error (never wrong plaintext)
+    PlainOrErr,
+}
+
+struct Judged {
+    expect: Expect,
+    /// P1..P4
+    oracle: &'static str,
+    /// presentation kind for signatures / coverage
+    kind: String,
+}
+
+fn classify(pool: &Pool, t: &Truth, p: &Pres) -> Judged {
+    // which session keys do the presented secrets yield?
+    const WRONG: usize = usize::MAX;
+    let mut derived: Vec<usize> = vec![];
+    let mut flags = std::collections::BTreeSet::new();
+    for (k, f) in &p.keys {
+        let holder: Vec<usize> = t.key_holders.iter().filter(|(h, _)| h == k).map(|(_, s)| *s).collect();
+        if holder.is_empty() {
+            flags.insert('d');
+        } else if key_usable(pool, *k, *f, &p.key_pws) {
+            flags.insert(if matches!(f, Form::Locked | Form::Split) { 'K' } else { 'k' });
+            derived.extend(holder);
+        } else {
+            flags.insert('L');
+        }
+    }
+    let mut any_wrong_pw = false;
+    for pw in &p.msg_pws {
+        let holder: Vec<usize> = t.pw_holders.iter().filter(|(h, _)| h == pw).map(|(_, s)| *s).collect();
+        if holder.is_empty() {
+            flags.insert('w');
+            any_wrong_pw = true;
+        } else {
+            flags.insert('p');
+            derived.extend(holder);
+        }
+    }
+    for s in &p.sks {
+        match s {
+            SkP::Id(i) => {
+                flags.insert(if *i == 0 { 's' } else { 'o' });
+                derived.push(*i);
+            }
+            SkP::Wrong(..) => {
+                flags.insert('x');
+                derived.push(WRONG);
+            }
+        }
+    }
+    let kind = format!("{}[{}]", p.api.name(), flags.iter().collect::<String>());
+    let abort = p.api != Api::Ring(false);
+    let has_v4_skesk = !t.skesk4.is_empty();
+    let has_right = derived.iter().any(|d| *d == 0);
+    let all_right = has_right && derived.iter().all(|d| *d == 0);
+    let (expect, oracle) = if !has_right {
+        // nothing presented yields the data key; when some secret yields *another* session key of a
+        // spliced message this belongs to the conflict family
+        (Expect::MustFail, if derived.iter().any(|d| *d != WRONG) { "P4" } else { "P2" })
+    } else if abort && !p.sks.is_empty() {
+        // abort_early: "the first available session key will be used, even if it might be wrong"
+        match &p.sks[0] {
+            SkP::Id(0) if all_right => (Expect::MustPlain, "P1"),
+            SkP::Id(0) => (Expect::PlainOrErr, "P4"),
+            _ => (Expect::PlainOrErr, "P4"),
+        }
+    } else if all_right {
+        // unrelated passwords next to an SKESK v4 may be falsely accepted (no integrity): the
+        // property requires success alongside unrelated passwords only for SKESK v6
+        if has_v4_skesk && (p.msg_pws.len() >= 2 || any_wrong_pw) {
+            (Expect::PlainOrErr, "P1")
+        } else {
+            (Expect::MustPlain, "P1")
+        }
+    } else if abort {
+        (Expect::PlainOrErr, "P4")
+    } else {
+        (Expect::ConflictMustFail, "P4")
+    };
+    Judged { expect, oracle, kind }
+}
+
+enum Outcome {
+    /// decrypt Ok and the message read to a clean EOF
+    Plain(Vec<u8>),
+    ErrParse(String),
+    ErrDecrypt(String),
+    ErrRead { err: String, released: usize },
+}
+
+impl Outcome {
+    fn brief(&self) -> String {
+        match self {
+            Outcome::Plain(d) => format!("Ok, {} bytes read to EOF", d.len()),
+            Outcome::ErrParse(e) => format!("Err at parse: {e}"),
+            Outcome::ErrDecrypt(e) => format!("Err at decrypt: {e}"),
+            Outcome::ErrRead { err, released } => format!("Err on read after {released} bytes: {err}"),
+        }
+    }
+}
+
+fn ring_json(r: &RingResult) -> Value {
+    json!({
+        "secret_keys": r.secret_keys.iter().map(|x| format!("{x:?}")).collect::<Vec<_>>(),
+        "message_password": r.message_password.iter().map(|x| format!("{x:?}")).collect::<Vec<_>>(),
+        "session_keys": r.session_keys.iter().map(|x| format!("{x:?}")).collect::<Vec<_>>(),
+    })
+}
+
+/// Runs one presentation against the real API.
+fn execute(ctx: &mut Ctx, pool: &Pool, t: &Truth, bytes: &[u8], p: &Pres, sigprefix: &str) -> Option<(Outcome, Option<Value>)> {
+    let keys: Vec<&SignedSecretKey> = p
+        .keys
+        .iter()
+        .map(|(k, f)| match f {
+            Form::Plain => &pool.keys[*k].plain,
+            Form::Locked => &pool.keys[*k].locked,
+            Form::Split => &pool.keys[*k].split,
+            Form::Extra => &pool.keys[*k].extra,
+        })
+        .collect();
+    let key_pws: Vec<Password> = p.key_pws.iter().map(|s| Password::from(s.as_str())).collect();
+    let msg_pws: Vec<Password> = p.msg_pws.iter().map(|s| Password::from(s.as_str())).collect();
+    let sks: Vec<PlainSessionKey> = p
+        .sks
+        .iter()
+        .map(|s| match s {
+            SkP::Id(i) => t.plain_sk(*i),
+            SkP::Wrong(_, k) => k.clone(),
+        })
+        .collect();
+    ctx.eval();
+    let replay = || json!({"message": hexs(bytes), "presentation": p.json(pool)});
+    ctx.guarded(sigprefix, replay, || {
+        let msg = match Message::from_bytes(bytes) {
+            Ok(m) => m,
+            Err(e) => return (Outcome::ErrParse(e.to_string()), None),
+        };
+        let empty = Password::empty();
+        let mut ring_res = None;
+        let res = match p.api {
+            Api::Decrypt => msg.decrypt(key_pws.first().unwrap_or(&empty), keys[0]),
+            Api::WithKeys => msg.decrypt_with_keys(key_pws.iter().collect(), keys.clone()),
+            Api::WithPassword => msg.decrypt_with_password(&msg_pws[0]),
+            Api::WithSessionKey => msg.decrypt_with_session_key(sks[0].clone()),
+            Api::Ring(abort_early) => {
+                let mut opts = DecryptionOptions::new();
+                if p.streaming {
+                    opts = opts.set_seipdv1_read_mode(Seipdv1ReadMode::Streaming);
+                }
+                let ring = TheRing {
+                    secret_keys: keys.clone(),
+                    key_passwords: key_pws.iter().collect(),
+                    message_password: msg_pws.iter().collect(),
+                    session_keys: sks.clone(),
+                    decrypt_options: opts,
+                };
+                msg.decrypt_the_ring(ring, abort_early).map(|(m, r)| {
+                    ring_res = Some(ring_json(&r));
+                    m
+                })
+            }
+        };
+        match res {
+            Err(e) => (Outcome::ErrDecrypt(e.to_string()), ring_res),
+            Ok(mut m) => {
+                let d = drain_read(&mut m, &Consume::ToEnd);
+                match d.err {
+                    None => (Outcome::Plain(d.data), ring_res),
+                    Some(e) => (Outcome::ErrRead { err: e.to_string(), released: d.data.len() }, ring_res),
+                }
+            }
+        }
+    })
+}
+
+/// Does some presented password decrypt some SKESK v4 of the message, which was not made for it,
+/// to a plausible (algorithm, key) pair? (reference computation)
+fn skesk4_cross_accept(t: &Truth, p: &Pres) -> bool {
+    for body in &t.skesk4 {
+        for pw in &p.msg_pws {
+            if let Some((alg, key)) = rfc::sym::skesk_v4_decrypt(body, pw.as_bytes()) {
+                let plausible = alg != 0 && rfc::sym::key_size(alg) == Some(key.len());
+                let is_known_key = t.sks.iter().any(|(a, k)| *a == alg && *k == key);
+                if plausible && !is_known_key {
+                    return true;
+                }
+            }
+        }
+    }
+    false
+}
+
+#[derive(PartialEq, Eq, Debug, Clone, Copy)]
+enum Verdict {
+    Held,
+    /// a non-recipient presentation was accepted (candidate for the 3x repeat rule)
+    Accepted,
+    Violated,
+}
+
+/// Executes and judges one presentation. Violations are recorded, except that with `defer_accept`
+/// an accepted non-recipient presentation is only returned (the caller applies the repeat rule).
+#[allow(clippy::too_many_arguments)]
+fn check(
+    ctx: &mut Ctx,
+    pool: &Pool,
+    t: &Truth,
+    bytes: &[u8],
+    p: &Pres,
+    family: &str,
+    shape: &str,
+    defer_accept: bool,
+) -> Verdict {
+    let j = classify(pool, t, p);
+    let sigp = format!("C18/{}/{}", j.oracle, j.kind);
+    ctx.seen("presentation.kind", j.kind.clone());
+    ctx.seen("api", p.api.name());
+    ctx.tally(&format!("expect.{:?}", j.expect), 1);
+    ctx.tally(&format!("oracle.{}", j.oracle), 1);
+    let order: Vec<String> = p
+        .keys
+        .iter()
+        .map(|(k, f)| format!("{}:{:?}", pool.keys[*k].label, f))
+        .chain(p.msg_pws.iter().map(|w| (if t.pw_holders.iter().any(|(h, _)| h == w) { "pw" } else { "wrongpw" }).to_string()))
+        .chain(p.sks.iter().map(|s| match s {
+            SkP::Id(i) => format!("sk{i}"),
+            SkP::Wrong(n, _) => format!("x-{n}"),
+        }))
+        .collect();
+    ctx.cover(&(family, shape, p.api.name(), order, p.key_pws.len(), p.streaming));
+    for (k, _) in &p.keys {
+        if t.key_holders.iter().any(|(h, _)| h == k) {
+            ctx.seen(
+                "recipient-alg x esk x api",
+                format!("{}|{}|{}", pool.keys[*k].label, if t.v2 { "pkesk6" } else { "pkesk3" }, p.api.name()),
+            );
+        }
+    }
+    let Some((out, ring)) = execute(ctx, pool, t, bytes, p, &sigp) else {
+        return Verdict::Violated;
+    };
+    if let Some(r) = &ring {
+        for grp in ["secret_keys", "message_password", "session_keys"] {
+            for v in r[grp].as_array().unwrap() {
+                ctx.seen("ring.result", format!("{grp}:{}", v.as_str().unwrap()));
+            }
+        }
+        if ctx.samples.len() < 4 && (p.keys.len() + p.msg_pws.len() + p.sks.len()) >= 2 {
+            ctx.sample(json!({"family": family, "shape": shape, "presentation": p.json(pool), "expect": format!("{:?}", j.expect),
+                "outcome": out.brief(), "ring_result": r, "message": hexs(bytes)}));
+        }
+    }
+    let replay = || {
+        json!({"family": family, "shape": shape, "message": hexs(bytes), "payload": hexs(&t.payload),
+               "presentation": p.json(pool), "expect": format!("{:?}", j.expect), "outcome": out.brief(), "ring_result": ring})
+    };
+    match (&out, j.expect) {
+        (Outcome::ErrParse(e), _) => {
+            ctx.violation(format!("C18/{}/parse-error", j.oracle), format!("message does not parse: {e}"), replay());
+            Verdict::Violated
+        }
+        // wrong plaintext is never acceptable
+        (Outcome::Plain(d), _) if *d != t.payload => {
+            ctx.violation(
+                format!("{sigp}/wrong-plaintext"),
+                format!("decryption returned Ok and {} bytes that are not the payload ({} bytes)", d.len(), t.payload.len()),
+                replay(),
+            );
+            Verdict::Violated
+        }
+        (Outcome::Plain(_), Expect::MustPlain) | (Outcome::Plain(_), Expect::PlainOrErr) => {
+            ctx.tally("ok.plaintext", 1);
+            Verdict::Held
+        }
+        (Outcome::Plain(_), Expect::MustFail) if p.sks.iter().any(|s| matches!(s, SkP::Wrong(CAST5_ZERO_TAIL, _))) => {
+            ctx.violation(
+                "C18/P2/cast5-truncated-session-key/plaintext",
+                "a 15-octet session key was accepted for CAST5 (128-bit keys in OpenPGP) and decrypted the message: the session key length is not checked for SEIPDv1, and the cipher zero-pads short keys".to_string(),
+                replay(),
+            );
+            Verdict::Violated
+        }
+        (Outcome::Plain(_), Expect::MustFail) => {
+            if !defer_accept {
+                ctx.violation(
+                    format!("{sigp}/plaintext-to-nonrecipient"),
+                    "no presented secret is an intended recipient secret, yet decryption returned the plaintext".to_string(),
+                    replay(),
+                );
+            }
+            Verdict::Accepted
+        }
+        (Outcome::Plain(_), Expect::ConflictMustFail) => {
+            ctx.violation(
+                format!("{sigp}/conflict-not-reported"),
+                "presented secrets yield different session keys, abort_early=false, but decryption silently chose one".to_string(),
+                replay(),
+            );
+            Verdict::Violated
+        }
+        (Outcome::ErrRead { released, .. }, e) if *released > 0 && e != Expect::MustPlain => {
+            // default (CheckFirst / AEAD) decryption must not release anything before failing
+            if p.streaming {
+                ctx.tally("streaming.data-before-error", 1);
+                Verdict::Held
+            } else {
+                ctx.violation(format!("{sigp}/data-before-error"), format!("{} bytes released before the error", released), replay());
+                Verdict::Violated
+            }
+        }
+        (_, Expect::MustPlain) => {
+            if skesk4_cross_accept(t, p) {
+                ctx.violation(
+                    "C18/P1/skesk4-cross-accept/err",
+                    format!(
+                        "an intended password fails because it is also (falsely) accepted by another SKESK v4 of the message, whose bogus session key then conflicts: {}",
+                        out.brief()
+                    ),
+                    replay(),
+                );
+            } else {
+                ctx.violation(
+                    format!("{sigp}/err"),
+                    format!("an intended recipient secret was presented but decryption failed: {}", out.brief()),
+                    replay(),
+                );
+            }
+            Verdict::Violated
+        }
+        (_, Expect::PlainOrErr) => {
+            ctx.tally("lenient.err", 1);
+            Verdict::Held
+        }
+        (_, Expect::MustFail) | (_, Expect::ConflictMustFail) => {
+            ctx.tally(if j.expect == Expect::MustFail { "ok.rejected" } else { "ok.conflict-reported" }, 1);
+            if let (Outcome::ErrDecrypt(e), Expect::ConflictMustFail) = (&out, j.expect) {
+                ctx.seen("conflict.error", if e.contains("inconsistent") { "inconsistent session keys" } else { "other error" });
+            }
+            Verdict::Held
+        }
+    }
+}
+
+// ------------------------------------------------------------------------------------------
+// wrong secrets
+
+fn wrong_password(rng: &mut ChaCha8Rng, near: Option<&str>) -> String {
+    match (rng.gen_range(0..5), near) {
+        (0, Some(p)) => format!("{p}x"),
+        (1, Some(p)) if p.len() > 1 => p[..p.len() - 1].to_string(),
+        (2, Some(p)) => p.to_uppercase(),
+        (3, _) => String::new(),
+        _ => format!("wrong-{:08x}", rng.gen::<u32>()),
+    }
+}
+
+/// kind label of a 15-octet CAST5 session key whose missing 16th octet is zero
+const CAST5_ZERO_TAIL: &str = "short-cast5-zero-tail";
+
+const WRONG_SK_KINDS: [&str; 9] =
+    ["flip", "random", "short", "long", "empty", "alg-same-size", "alg-other-size", "alg-invalid", "version"];
+
+/// A session key that is not the data key, of the given kind.
+fn wrong_sk(t: &Truth, kind: &'static str, rng: &mut ChaCha8Rng) -> SkP {
+    let (alg, raw) = &t.sks[0];
+    let mk = |a: u8, k: Vec<u8>| -> PlainSessionKey {
+        if t.v2 {
+            PlainSessionKey::V6 { key: k.into() }
+        } else {
+            PlainSessionKey::V3_4 { sym_alg: SymmetricKeyAlgorithm::from(a), key: k.into() }
+        }
+    };
+    let k = match kind {
+        "flip" => {
+            let mut k = raw.clone();
+            let i = rng.gen_range(0..k.len());
+            // never the lowest bit: DES ignores the parity bit of every key octet
+            k[i] ^= 1 << rng.gen_range(1..8);
+            mk(*alg, k)
+        }
+        "random" => {
+            let mut k = vec![0u8; raw.len()];
+            rng.fill_bytes(&mut k);
+            mk(*alg, k)
+        }
+        "short" => {
+            // CAST5 takes 5..16 key octets and zero-pads: dropping a zero last octet leaves the
+            // effective cipher key unchanged (tracked under its own signature, see `check`)
+            if *alg == 3 && !t.v2 && raw.last() == Some(&0) {
+                return SkP::Wrong(CAST5_ZERO_TAIL, mk(*alg, raw[..raw.len() - 1].to_vec()));
+            }
+            mk(*alg, raw[..raw.len() - 1].to_vec())
+        }
+        "long" => {
+            let mut k = raw.clone();
+            k.push(rng.gen());
+            mk(*alg, k)
+        }
+        "empty" => mk(*alg, vec![]),
+        "alg-same-size" => {
+            // another cipher with the same key size (v1; for v2 the key version is changed instead)
+            let other = rfc::sym::ALL_CIPHERS
+                .iter()
+                .copied()
+                .find(|a| *a != *alg && rfc::sym::key_size(*a) == Some(raw.len()))
+                .unwrap_or(7);
+            if t.v2 {
+                PlainSessionKey::V3_4 { sym_alg: SymmetricKeyAlgorithm::from(*alg), key: raw.clone().into() }
+            } else {
+                mk(other, raw.clone())
+            }
+        }
+        "alg-other-size" => {
+            let other = if raw.len() == 32 { 7u8 } else { 9u8 };
+            if t.v2 {
+                PlainSessionKey::V5 { key: raw.clone().into() }
+            } else {
+                mk(other, raw.clone())
+            }
+        }
+        "alg-invalid" => {
+            if t.v2 {
+                PlainSessionKey::V3_4 { sym_alg: SymmetricKeyAlgorithm::Plaintext, key: raw.clone().into() }
+            } else {
+                mk(if rng.gen() { 0 } else { 99 }, raw.clone())
+            }
+        }
+        _ => {
+            // right bytes under the wrong session-key version
+            if t.v2 {
+                PlainSessionKey::V3_4 { sym_alg: SymmetricKeyAlgorithm::from(*alg), key: raw.clone().into() }
+            } else if rng.gen() {
+                PlainSessionKey::V6 { key: raw.clone().into() }
+            } else {
+                PlainSessionKey::V5 { key: raw.clone().into() }
+            }
+        }
+    };
+    SkP::Wrong(kind, k)
+}
+
+/// fresh wrong passwords / random wrong session keys at the same sites (3x repeat rule)
+fn refresh(t: &Truth, p: &Pres, rng: &mut ChaCha8Rng) -> Pres {
+    let mut q = p.clone();
+    for w in q.msg_pws.iter_mut() {
+        if !t.pw_holders.iter().any(|(h, _)| h == w) {
+            *w = format!("fresh-{:016x}", rng.gen::<u64>());
+        }
+    }
+    for s in q.sks.iter_mut() {
+        if matches!(s, SkP::Wrong("flip" | "random", _)) {
+            *s = wrong_sk(t, "random", rng);
+        }
+    }
+    q
+}
+
+/// negative presentation with the repeat rule for events that are inherently possible with
+/// probability about 2^-16 (SKESK v4 plausibility check + CFB quick check)
+#[allow(clippy::too_many_arguments)]
+fn check_negative(ctx: &mut Ctx, pool: &Pool, t: &Truth, bytes: &[u8], p: &Pres, family: &str, shape: &str, rng: &mut ChaCha8Rng) {
+    let has_random = p.msg_pws.iter().any(|w| !t.pw_holders.iter().any(|(h, _)| h == w))
+        || p.sks.iter().any(|s| matches!(s, SkP::Wrong("flip" | "random", _)));
+    let v = check(ctx, pool, t, bytes, p, family, shape, has_random);
+    if v == Verdict::Accepted && has_random {
+        let mut all = true;
+        for _ in 0..3 {
+            let q = refresh(t, p, rng);
+            if check(ctx, pool, t, bytes, &q, family, shape, true) != Verdict::Accepted {
+                all = false;
+                break;
+            }
+        }
+        if all {
+            // reproduced three times with fresh wrong secrets: report through the normal path
+            check(ctx, pool, t, bytes, p, family, shape, false);
+        } else {
+            ctx.tally("p2.accept-not-reproduced", 1);
+        }
+    }
+}
+
+// ------------------------------------------------------------------------------------------
+// family A: random recipient sets, all subsets / orderings of presented secrets, decoys alongside,
+// non-recipient presentations
+
+fn gen_payload(rng: &mut ChaCha8Rng) -> Vec<u8> {
+    let len = match rng.gen_range(0..20) {
+        0 => 0,
+        1 => 1,
+        2..=8 => rng.gen_range(2..64),
+        9..=15 => rng.gen_range(64..400),
+        16..=18 => rng.gen_range(400..3000),
+        _ => rng.gen_range(3000..9000),
+    };
+    let mut v = vec![0u8; len];
+    rng.fill_bytes(&mut v);
+    v
+}
+
+/// all ordered selections (permutations of non-empty subsets) of 0..n
+fn ordered_subsets(n: usize) -> Vec<Vec<usize>> {
+    fn rec(n: usize, cur: &mut Vec<usize>, out: &mut Vec<Vec<usize>>) {
+        if !cur.is_empty() {
+            out.push(cur.clone());
+        }
+        for i in 0..n {
+            if !cur.contains(&i) {
+                cur.push(i);
+                rec(n, cur, out);
+                cur.pop();
+            }
+        }
+    }
+    let mut out = vec![];
+    rec(n, &mut vec![], &mut out);
+    out
+}
+
+fn shuffle_esks(bytes: &[u8], rng: &mut ChaCha8Rng) -> Result<Vec<u8>, String> {
+    let mut p = split_packets(bytes)?;
+    let last = p.pop().ok_or("empty message")?;
+    p.shuffle(rng);
+    let mut out = vec![];
+    for (_, _, raw) in &p {
+        out.extend_from_slice(raw);
+    }
+    out.extend_from_slice(&last.2);
+    Ok(out)
+}
+
+fn insert_at_random<T>(v: &mut Vec<T>, x: T, rng: &mut ChaCha8Rng) {
+    let pos = rng.gen_range(0..=v.len());
+    v.insert(pos, x);
+}
+
+fn fam_a(ctx: &mut Ctx, pool: &Pool) {
+    let n = ctx.qt(4000u64, 100000u64);
+    let mut shapes = vec![];
+    for nk in 0..=4usize {
+        for np in 0..=3usize {
+            if nk + np >= 1 {
+                shapes.push((nk, np));
+            }
+        }
+    }
+    let chunks = [ChunkSize::C64B, ChunkSize::default(), ChunkSize::C256B];
+    for i in 0..n {
+        if !ctx.mine() {
+            continue;
+        }
+        let mut rng = ctx.rng("A", i);
+        let v2 = i % 2 == 1;
+        let j = (i / 2) as usize;
+        let sym = if v2 { V2_CIPHERS[j % 3] } else { V1_CIPHERS[j % 11] };
+        let mut spec = MsgSpec::new(v2, sym, gen_payload(&mut rng));
+        spec.aead = AEADS[(j / 3) % 3];
+        spec.chunk = chunks[(j / 9) % 3];
+        let (nk, np) = shapes[j % shapes.len()];
+        for s in 0..nk {
+            let k = if s == 0 {
+                j % pool.keys.len()
+            } else {
+                let have: Vec<usize> = spec.keys.iter().map(|(k, _)| *k).collect();
+                pool.pick_other(&mut rng, &have)
+            };
+            spec.keys.push((k, rng.gen_bool(0.35)));
+        }
+        for s in 0..np {
+            spec.pws.push((format!("pw-{i}-{s}"), j + s));
+        }
+        let shape = spec.shape(pool);
+        crate::core::describe_case(&format!("C18 family A message {i}: {shape}"));
+        let built = match build(pool, &spec, &mut rng) {
+            Ok(b) => b,
+            Err(e) => {
+                ctx.inconclusive(format!("builder refused a recipient set: {e}"));
+                continue;
+            }
+        };
+        let t = Truth::of(&spec, &built);
+        let bytes = if rng.gen_bool(0.5) {
+            match shuffle_esks(&built.bytes, &mut rng) {
+                Ok(b) => {
+                    ctx.tally("A.esk-order-shuffled", 1);
+                    b
+                }
+                Err(e) => {
+                    ctx.inconclusive(format!("reference cannot deframe a library message: {e}"));
+                    continue;
+                }
+            }
+        } else {
+            built.bytes.clone()
+        };
+        for (k, anon) in &spec.keys {
+            ctx.seen(
+                "recipient-alg x esk",
+                format!("{}|{}|{}", pool.keys[*k].label, if v2 { "pkesk6" } else { "pkesk3" }, if *anon { "anon" } else { "addressed" }),
+            );
+        }
+        for (_, kind) in &spec.pws {
+            ctx.seen("s2k x skesk", format!("{}|{}", S2K_KINDS[kind % S2K_KINDS.len()], if v2 { "skesk6" } else { "skesk4" }));
+        }
+        if v2 {
+            ctx.seen("cipher.seipd2", format!("{}-{}", u8::from(spec.sym), u8::from(spec.aead)));
+        } else {
+            ctx.seen("cipher.seipd1", format!("{}", u8::from(spec.sym)));
+        }
+        ctx.seen("recipient-set-size", format!("{nk}k+{np}p"));
+        ctx.tally("A.messages", 1);
+
+        // ---- (1) recipients only: all ordered subsets (|R| <= 3) or a sample
+        let nr = nk + np;
+        let arrangements: Vec<Vec<usize>> = if nr <= 3 {
+            ordered_subsets(nr)
+        } else {
+            (0..10)
+                .map(|_| {
+                    let mut idx: Vec<usize> = (0..nr).collect();
+                    idx.shuffle(&mut rng);
+                    let take = rng.gen_range(1..=nr);
+                    idx.truncate(take);
+                    idx
+                })
+                .collect()
+        };
+        let mut seen_arr = std::collections::HashSet::new();
+        let mut c = i as usize;
+        for arr in &arrangements {
+            let ks: Vec<usize> = arr.iter().filter(|x| **x < nk).map(|x| spec.keys[*x].0).collect();
+            let ps: Vec<String> = arr.iter().filter(|x| **x >= nk).map(|x| spec.pws[*x - nk].0.clone()).collect();
+            if !seen_arr.insert((ks.clone(), ps.clone())) {
+                continue;
+            }
+            c += 1;
+            let apis: Vec<Api> = if ps.is_empty() && ks.len() == 1 {
+                vec![Api::Decrypt, Api::Ring(true), Api::Ring(false)]
+            } else if ks.is_empty() && ps.len() == 1 {
+                vec![Api::WithPassword, Api::Ring(true), Api::Ring(false)]
+            } else if ps.is_empty() {
+                vec![Api::WithKeys, Api::Ring(false)]
+            } else {
+                vec![Api::Ring(true), Api::Ring(false)]
+            };
+            for (ai, api) in apis.iter().enumerate() {
+                let mut p = Pres::new(*api);
+                for (pos, k) in ks.iter().enumerate() {
+                    p = p.with_key(pool, *k, FORMS[(c + pos + ai) % 4]);
+                }
+                for w in &ps {
+                    p = p.with_pw(w);
+                }
+                check(ctx, pool, &t, &bytes, &p, "A", &shape, false);
+            }
+        }
+
+        // ---- (2) recipients with unrelated secrets alongside
+        let recips: Vec<usize> = spec.keys.iter().map(|(k, _)| *k).collect();
+        for _ in 0..6 {
+            let mut idx: Vec<usize> = (0..nr).collect();
+            idx.shuffle(&mut rng);
+            idx.truncate(rng.gen_range(1..=nr.min(3)));
+            let mut p = Pres::new(Api::Ring(rng.gen()));
+            for x in &idx {
+                if *x < nk {
+                    p = p.with_key(pool, spec.keys[*x].0, FORMS[rng.gen_range(0..4)]);
+                } else {
+                    p = p.with_pw(&spec.pws[*x - nk].0);
+                }
+            }
+            // unrelated keys (same-algorithm twins preferred), any form, at any position
+            for _ in 0..rng.gen_range(0..=2) {
+                let d = match recips.choose(&mut rng).and_then(|r| pool.twin[*r]) {
+                    Some(tw) if rng.gen_bool(0.5) && !recips.contains(&tw) => tw,
+                    _ => pool.pick_other(&mut rng, &recips),
+                };
+                if p.keys.iter().any(|(k, _)| *k == d) {
+                    continue;
+                }
+                let f = FORMS[rng.gen_range(0..4)];
+                insert_at_random(&mut p.keys, (d, f), &mut rng);
+                if matches!(f, Form::Locked | Form::Split) && rng.gen_bool(0.5) {
+                    let pw = pool.keys[d].kpw.clone();
+                    insert_at_random(&mut p.key_pws, pw, &mut rng);
+                }
+            }
+            // wrong key passwords in front of / between the right ones
+            for _ in 0..rng.gen_range(0..=2) {
+                let w = format!("not-a-key-pw-{}", rng.gen::<u16>());
+                insert_at_random(&mut p.key_pws, w, &mut rng);
+            }
+            // unrelated message passwords
+            if rng.gen_bool(0.4) {
+                for _ in 0..rng.gen_range(1..=2) {
+                    let near = spec.pws.first().map(|(p, _)| p.as_str());
+                    let w = wrong_password(&mut rng, near);
+                    insert_at_random(&mut p.msg_pws, w, &mut rng);
+                }
+            }
+            if rng.gen_bool(0.2) {
+                p = p.with_sk(SkP::Id(0));
+            }
+            p.streaming = rng.gen_bool(0.15);
+            if p.msg_pws.is_empty() && p.sks.is_empty() && !p.keys.is_empty() && !p.streaming && rng.gen_bool(0.4) {
+                p.api = Api::WithKeys;
+            }
+            check(ctx, pool, &t, &bytes, &p, "A", &shape, false);
+        }
+
+        // ---- (3) the session key itself
+        check(ctx, pool, &t, &bytes, &Pres::new(Api::WithSessionKey).with_sk(SkP::Id(0)), "A", &shape, false);
+        check(ctx, pool, &t, &bytes, &Pres::new(Api::Ring(false)).with_sk(SkP::Id(0)).with_sk(SkP::Id(0)), "A", &shape, false);
+
+        // ---- (4) non-recipients only
+        // unrelated keys
+        {
+            let cnt = rng.gen_range(1..=3);
+            let mut p = Pres::new(Api::Ring(rng.gen()));
+            for _ in 0..cnt {
+                let d = match recips.choose(&mut rng).and_then(|r| pool.twin[*r]) {
+                    Some(tw) if rng.gen_bool(0.6) && !recips.contains(&tw) => tw,
+                    _ => pool.pick_other(&mut rng, &recips),
+                };
+                if p.keys.iter().any(|(k, _)| *k == d) {
+                    continue;
+                }
+                p = p.with_key(pool, d, FORMS[rng.gen_range(0..4)]);
+            }
+            if p.keys.len() == 1 && rng.gen() {
+                p.api = Api::Decrypt;
+            } else if rng.gen_bool(0.3) {
+                p.api = Api::WithKeys;
+            }
+            check_negative(ctx, pool, &t, &bytes, &p, "A", &shape, &mut rng);
+        }
+        // a recipient key that stays locked (only wrong key passwords)
+        if let Some(r) = recips.choose(&mut rng) {
+            let f = if rng.gen() { Form::Locked } else { Form::Split };
+            let mut p = Pres::new(if rng.gen() { Api::Decrypt } else { Api::Ring(rng.gen()) });
+            p.keys.push((*r, f));
+            p.key_pws.push(format!("{}x", pool.keys[*r].kpw));
+            if p.api != Api::Decrypt {
+                p.key_pws.push(String::new());
+                p.key_pws.push(format!("other-{}", pool.keys[*r].kpw));
+            }
+            check_negative(ctx, pool, &t, &bytes, &p, "A", &shape, &mut rng);
+        }
+        // wrong passwords
+        {
+            let near = spec.pws.first().map(|(p, _)| p.as_str());
+            let p = Pres::new(Api::WithPassword).with_pw(&wrong_password(&mut rng, near));
+            check_negative(ctx, pool, &t, &bytes, &p, "A", &shape, &mut rng);
+            let p = Pres::new(Api::Ring(rng.gen()))
+                .with_pw(&wrong_password(&mut rng, near))
+                .with_pw(&wrong_password(&mut rng, None));
+            check_negative(ctx, pool, &t, &bytes, &p, "A", &shape, &mut rng);
+        }
+        // wrong session keys
+        {
+            let k1 = WRONG_SK_KINDS[(i as usize) % WRONG_SK_KINDS.len()];
+            let k2 = WRONG_SK_KINDS[(i as usize / 9 + 1) % WRONG_SK_KINDS.len()];
+            let p = Pres::new(Api::WithSessionKey).with_sk(wrong_sk(&t, k1, &mut rng));
+            check_negative(ctx, pool, &t, &bytes, &p, "A", &shape, &mut rng);
+            let p = Pres::new(Api::Ring(rng.gen())).with_sk(wrong_sk(&t, k2, &mut rng));
+            check_negative(ctx, pool, &t, &bytes, &p, "A", &shape, &mut rng);
+            // everything wrong at once
+            let d = pool.pick_other(&mut rng, &recips);
+            let p = Pres::new(Api::Ring(false))
+                .with_key(pool, d, FORMS[rng.gen_range(0..4)])
+                .with_pw(&wrong_password(&mut rng, None))
+                .with_sk(wrong_sk(&t, "random", &mut rng));
+            check_negative(ctx, pool, &t, &bytes, &p, "A", &shape, &mut rng);
+        }
+
+        // ---- (5) a right secret next to a disagreeing explicit session key
+        {
+            let mut base = Pres::new(Api::Ring(false));
+            if nk > 0 && (np == 0 || rng.gen()) {
+                base = base.with_key(pool, spec.keys[0].0, FORMS[rng.gen_range(0..4)]);
+            } else {
+                base = base.with_pw(&spec.pws[0].0);
+            }
+            let kind = if rng.gen() { "flip" } else { "random" };
+            let p = base.clone().with_sk(wrong_sk(&t, kind, &mut rng));
+            check(ctx, pool, &t, &bytes, &p, "A", &shape, false);
+            let mut p2 = p.clone();
+            p2.api = Api::Ring(true);
+            check(ctx, pool, &t, &bytes, &p2, "A", &shape, false);
+            let w = wrong_sk(&t, "flip", &mut rng);
+            let p = if rng.gen() {
+                Pres::new(Api::Ring(false)).with_sk(SkP::Id(0)).with_sk(w)
+            } else {
+                Pres::new(Api::Ring(false)).with_sk(w).with_sk(SkP::Id(0))
+            };
+            check(ctx, pool, &t, &bytes, &p, "A", &shape, false);
+        }
+    }
+}
+
+// ------------------------------------------------------------------------------------------
+// family B: decoy ESK packets in the message
+
+fn pkesk_rename(body: &[u8], to: Option<&PoolKey>) -> Option<Vec<u8>> {
+    match body.first()? {
+        3 => {
+            let mut out = vec![3u8];
+            match to {
+                Some(k) => out.extend_from_slice(&k.key_id),
+                None => out.extend_from_slice(&[0u8; 8]),
+            }
+            out.extend_from_slice(body.get(9..)?);
+            Some(out)
+        }
+        6 => {
+            let len = *body.get(1)? as usize;
+            let rest = body.get(2 + len..)?;
+            let mut out = vec![6u8];
+            match to {
+                Some(k) => {
+                    out.push(1 + k.fpr.len() as u8);
+                    out.push(if k.v6 { 6 } else { 4 });
+                    out.extend_from_slice(&k.fpr);
+                }
+                None => out.push(0),
+            }
+            out.extend_from_slice(rest);
+            Some(out)
+        }
+        _ => None,
+    }
+}
+
+fn corrupt_tail(body: &[u8]) -> Vec<u8> {
+    let mut b = body.to_vec();
+    let n = b.len();
+    b[n - 1] ^= 0x01;
+    b[n - 6] ^= 0x80;
+    b[n - 11] ^= 0x10;
+    b
+}
+
+fn frame_esk(tag: u8, body: &[u8]) -> Vec<u8> {
+    rfc::frame::frame(tag, body, &LenForm::NewMin).expect("frame")
+}
+
+/// a PKESK for an algorithm the library cannot decrypt with
+fn foreign_pkesk(v2: bool, alg: u8, id: Option<&PoolKey>, rng: &mut ChaCha8Rng) -> Vec<u8> {
+    let mut body = if v2 { vec![6u8, 0] } else { vec![3u8, 0, 0, 0, 0, 0, 0, 0, 0] };
+    body.push(alg);
+    let mut a = vec![0u8; 256];
+    rng.fill_bytes(&mut a);
+    a[0] |= 0x80;
+    body.extend(rfc::mpi(&a));
+    if alg == 16 {
+        rng.fill_bytes(&mut a);
+        body.extend(rfc::mpi(&a));
+    }
+    match id {
+        Some(k) => pkesk_rename(&body, Some(k)).unwrap(),
+        None => {
+            if v2 {
+                body
+            } else {
+                // a random, non-wildcard key id
+                for b in body[1..9].iter_mut() {
+                    *b = rng.gen_range(1..=255);
+                }
+                body
+            }
+        }
+    }
+}
+
+/// PKESK addressed and validly encrypted to `k` whose plaintext is a well-formed session key
+/// with a wrong two-octet checksum. None for algorithms without checksum.
+fn bad_checksum_pkesk(k: &PoolKey, v2: bool, sym: u8, key_len: usize, rng: &mut ChaCha8Rng) -> Option<Vec<u8>> {
+    use pgp::ser::Serialize;
+    use pgp::types::{EncryptionKey, EskType};
+    if k.label.starts_with("X25519") || k.label.starts_with("X448") {
+        return None;
+    }
+    let mut sk = vec![0u8; key_len];
+    rng.fill_bytes(&mut sk);
+    let mut blob = if v2 { rfc::sym::session_key_v6(&sk) } else { rfc::sym::session_key_v3(sym, &sk) };
+    let n = blob.len();
+    blob[n - 1] = blob[n - 1].wrapping_add(1);
+    let typ = if v2 { EskType::V6 } else { EskType::V3_4 };
+    let public = k.plain.to_public_key();
+    let (values, alg) = if k.enc_primary {
+        (public.primary_key.encrypt(&mut *rng, &blob, typ).ok()?, u8::from(public.primary_key.algorithm()))
+    } else {
+        let sub = &public.public_subkeys[0].key;
+        (sub.encrypt(&mut *rng, &blob, typ).ok()?, u8::from(sub.algorithm()))
+    };
+    let mut body = if v2 { vec![6u8, 0, alg] } else { vec![3u8, 0, 0, 0, 0, 0, 0, 0, 0, alg] };
+    values.to_writer(&mut body).ok()?;
+    pkesk_rename(&body, Some(k))
+}
+
+const DECOY_KINDS: [&str; 12] = [
+    "bad-checksum-other",
+    "renamed-to-other",
+    "garbage-other",
+    "garbage-self",
+    "wildcard-garbage",
+    "wildcard-foreign-key",
+    "named-foreign-key",
+    "foreign-alg-elgamal",
+    "foreign-alg-unknown",
+    "other-esk-version",
+    "unknown-pkesk-version",
+    "wildcard-candidates",
+];
+
+fn fam_b(ctx: &mut Ctx, pool: &Pool) {
+    let reps = ctx.qt(2u64, 40u64);
+    let mut idx = 0u64;
+    for rep in 0..reps {
+        for a in 0..pool.keys.len() {
+            for v2 in [false, true] {
+                for kind in DECOY_KINDS {
+                    idx += 1;
+                    if !ctx.mine() {
+                        continue;
+                    }
+                    let mut rng = ctx.rng("B", idx);
+                    let b = match pool.twin[a] {
+                        Some(tw) if rng.gen_bool(0.6) => tw,
+                        _ => pool.pick_other(&mut rng, &[a]),
+                    };
+                    let c = pool.pick_other(&mut rng, &[a, b]);
+                    let sym = if v2 { V2_CIPHERS[rng.gen_range(0..3)] } else { V1_CIPHERS[rng.gen_range(0..11)] };
+                    let mut spec = MsgSpec::new(v2, sym, gen_payload(&mut rng));
+                    spec.aead = AEADS[rng.gen_range(0..3)];
+                    spec.keys = vec![(a, kind == "wildcard-candidates")];
+                    let shape = format!("{}|decoy:{kind}", spec.shape(pool));
+                    crate::core::describe_case(&format!("C18 family B {shape} rep {rep}"));
+                    // second message with another session key (donor of ESK packets)
+                    let mut spec2 = spec.clone();
+                    spec2.payload = b"the other message".to_vec();
+                    spec2.keys = match kind {
+                        "garbage-self" => vec![(a, false)],
+                        "other-esk-version" => {
+                            spec2.v2 = !v2;
+                            spec2.sym = SymmetricKeyAlgorithm::AES128;
+                            vec![(a, false)]
+                        }
+                        _ => vec![(b, false)],
+                    };
+                    let (m1, m2) = match (build(pool, &spec, &mut rng), build(pool, &spec2, &mut rng)) {
+                        (Ok(x), Ok(y)) => (x, y),
+                        (Err(e), _) | (_, Err(e)) => {
+                            ctx.inconclusive(format!("builder refused a recipient set: {e}"));
+                            continue;
+                        }
+                    };
+                    let (p1, p2) = match (split_packets(&m1.bytes), split_packets(&m2.bytes)) {
+                        (Ok(x), Ok(y)) if x.len() == 2 && y.len() == 2 && x[0].0 == 1 && y[0].0 == 1 => (x, y),
+                        _ => {
+                            ctx.inconclusive("reference cannot deframe a library message");
+                            continue;
+                        }
+                    };
+                    let mut t = Truth::of(&spec, &m1);
+                    let donor_body = &p2[0].1;
+                    let decoys: Vec<Vec<u8>> = match kind {
+                        "renamed-to-other" => vec![frame_esk(1, &pkesk_rename(&p1[0].1, Some(&pool.keys[b])).unwrap())],
+                        "garbage-other" | "garbage-self" => vec![frame_esk(1, &corrupt_tail(donor_body))],
+                        "bad-checksum-other" => {
+                            // validly encrypted to key b, but the session key checksum inside is off by one
+                            // (X25519 / X448 carry no checksum: plain garbage there)
+                            match bad_checksum_pkesk(&pool.keys[b], v2, u8::from(spec.sym), m1.sk.len(), &mut rng) {
+                                Some(body) => vec![frame_esk(1, &body)],
+                                None => vec![frame_esk(1, &corrupt_tail(donor_body))],
+                            }
+                        }
+                        "wildcard-garbage" => vec![frame_esk(1, &pkesk_rename(&corrupt_tail(donor_body), None).unwrap())],
+                        "wildcard-foreign-key" | "named-foreign-key" => {
+                            // a genuine PKESK for key b that carries another session key
+                            t.sks.push((u8::from(spec2.sym), m2.sk.clone()));
+                            t.key_holders.push((b, 1));
+                            if kind == "named-foreign-key" {
+                                vec![p2[0].2.clone()]
+                            } else {
+                                vec![frame_esk(1, &pkesk_rename(donor_body, None).unwrap())]
+                            }
+                        }
+                        "foreign-alg-elgamal" => vec![
+                            frame_esk(1, &foreign_pkesk(v2, 16, None, &mut rng)),
+                            frame_esk(1, &foreign_pkesk(v2, 16, Some(&pool.keys[b]), &mut rng)),
+                        ],
+                        "foreign-alg-unknown" => vec![
+                            frame_esk(1, &foreign_pkesk(v2, 35, None, &mut rng)),
+                            frame_esk(1, &foreign_pkesk(v2, 36, Some(&pool.keys[a]), &mut rng)),
+                        ],
+                        "other-esk-version" => vec![p2[0].2.clone()],
+                        "unknown-pkesk-version" => {
+                            let mut body = vec![if rng.gen() { 5u8 } else { 7 }];
+                            let mut junk = vec![0u8; rng.gen_range(0..60)];
+                            rng.fill_bytes(&mut junk);
+                            body.extend(junk);
+                            vec![frame_esk(1, &body)]
+                        }
+                        _ => {
+                            // wildcard-candidates: further wildcard PKESKs made for other keys (garbage for everybody presented)
+                            vec![frame_esk(1, &pkesk_rename(&corrupt_tail(donor_body), None).unwrap())]
+                        }
+                    };
+                    ctx.seen("decoy.kind", format!("{kind}|{}", if v2 { "pkesk6" } else { "pkesk3" }));
+                    for before in [true, false] {
+                        let mut bytes = vec![];
+                        if before {
+                            for d in &decoys {
+                                bytes.extend_from_slice(d);
+                            }
+                        }
+                        bytes.extend_from_slice(&p1[0].2);
+                        if !before {
+                            for d in &decoys {
+                                bytes.extend_from_slice(d);
+                            }
+                        }
+                        bytes.extend_from_slice(&p1[1].2);
+                        let sh = format!("{shape}|{}", if before { "before" } else { "after" });
+                        // the intended recipient alone
+                        let f = FORMS[rng.gen_range(0..4)];
+                        check(ctx, pool, &t, &bytes, &Pres::new(Api::Decrypt).with_key(pool, a, f), "B", &sh, false);
+                        check(ctx, pool, &t, &bytes, &Pres::new(Api::Ring(false)).with_key(pool, a, Form::Plain), "B", &sh, false);
+                        // with the decoy's key and another key around it, every position of the recipient
+                        for order in [[a, b, c], [b, a, c], [b, c, a]] {
+                            let mut p = Pres::new(Api::Ring(rng.gen()));
+                            for k in order {
+                                p = p.with_key(pool, k, FORMS[rng.gen_range(0..4)]);
+                            }
+                            if rng.gen_bool(0.3) {
+                                p.api = Api::WithKeys;
+                            }
+                            check(ctx, pool, &t, &bytes, &p, "B", &sh, false);
+                        }
+                        // decoy-only
+                        check_negative(ctx, pool, &t, &bytes, &Pres::new(Api::Decrypt).with_key(pool, b, Form::Plain), "B", &sh, &mut rng);
+                        let p = Pres::new(Api::Ring(rng.gen())).with_key(pool, c, FORMS[rng.gen_range(0..4)]).with_key(pool, b, FORMS[rng.gen_range(0..4)]);
+                        check_negative(ctx, pool, &t, &bytes, &p, "B", &sh, &mut rng);
+                    }
+                }
+            }
+        }
+    }
+    // informational: a PKESK for a private/experimental or signing-only algorithm makes the whole
+    // message unparsable (not part of the property: the library cannot encrypt to such keys)
+    if ctx.mine() {
+        let mut rng = ctx.rng("B.info", 0);
+        let mut spec = MsgSpec::new(false, SymmetricKeyAlgorithm::AES128, b"x".to_vec());
+        spec.keys = vec![(0, false)];
+        if let Ok(m) = build(pool, &spec, &mut rng) {
+            for alg in [100u8, 22] {
+                let mut bytes = frame_esk(1, &foreign_pkesk(false, alg, None, &mut rng));
+                bytes.extend_from_slice(&m.bytes);
+                let ok = crate::core::guard(|| Message::from_bytes(&bytes[..]).is_ok()).unwrap_or(false);
+                ctx.seen("info.foreign-pkesk-alg-parse", format!("alg{alg}:{}", if ok { "parsed" } else { "message rejected" }));
+            }
+        }
+    }
+}
+
+// ------------------------------------------------------------------------------------------
+// family C: spliced messages whose ESK packets / explicit session keys disagree
+
+const CONFLICT_SHAPES: [&str; 11] = [
+    "pk-sk",
+    "sk-pk",
+    "pk-pk",
+    "pk-pk-same-key",
+    "sk-sk",
+    "sk-sk-same-password",
+    "pk-x",
+    "sk-x",
+    "x-x",
+    "pk-sk-x",
+    "control-consistent",
+];
+
+fn fam_c(ctx: &mut Ctx, pool: &Pool) {
+    let reps = ctx.qt(8u64, 400u64);
+    let mut idx = 0u64;
+    for rep in 0..reps {
+        for v2 in [false, true] {
+            for shape_name in CONFLICT_SHAPES {
+                for alg_only in [false, true] {
+                    idx += 1;
+                    if alg_only && (v2 || shape_name == "control-consistent") {
+                        continue;
+                    }
+                    if !ctx.mine() {
+                        continue;
+                    }
+                    let mut rng = ctx.rng("C", idx);
+                    let a = (idx as usize * 7 + rep as usize) % pool.keys.len();
+                    let b = pool.pick_other(&mut rng, &[a]);
+                    let (pw_p, pw_q) = (format!("conflict-p-{idx}"), format!("conflict-q-{idx}"));
+                    let sym1 = if v2 { V2_CIPHERS[rng.gen_range(0..3)] } else { V1_CIPHERS[rng.gen_range(0..11)] };
+                    // message 1: to key a and password p; message 2: to keys a, b and passwords p, q — other session key
+                    let mut s1 = MsgSpec::new(v2, sym1, gen_payload(&mut rng));
+                    s1.aead = AEADS[rng.gen_range(0..3)];
+                    s1.keys = vec![(a, rng.gen_bool(0.3))];
+                    s1.pws = vec![(pw_p.clone(), rng.gen_range(0..5))];
+                    let m1 = match build(pool, &s1, &mut rng) {
+                        Ok(m) => m,
+                        Err(e) => {
+                            ctx.inconclusive(format!("builder refused a recipient set: {e}"));
+                            continue;
+                        }
+                    };
+                    let mut s2 = s1.clone();
+                    s2.payload = b"payload of the OTHER message".to_vec();
+                    s2.keys = vec![(a, rng.gen_bool(0.3)), (b, rng.gen_bool(0.3))];
+                    s2.pws = vec![(pw_p.clone(), rng.gen_range(0..5)), (pw_q.clone(), rng.gen_range(0..5))];
+                    if alg_only {
+                        // same key octets, different cipher of the same key size
+                        let a1 = u8::from(sym1);
+                        let other = rfc::sym::ALL_CIPHERS
+                            .iter()
+                            .copied()
+                            .find(|x| *x != a1 && rfc::sym::key_size(*x) == rfc::sym::key_size(a1));
+                        let Some(other) = other else { continue };
+                        s2.sym = SymmetricKeyAlgorithm::from(other);
+                        s2.forced_sk = Some(m1.sk.clone());
+                    } else if !v2 && rng.gen() {
+                        s2.sym = V1_CIPHERS[rng.gen_range(0..11)];
+                    } else if v2 && rng.gen() {
+                        s2.sym = V2_CIPHERS[rng.gen_range(0..3)];
+                    }
+                    let m2 = match build(pool, &s2, &mut rng) {
+                        Ok(m) => m,
+                        Err(e) => {
+                            ctx.inconclusive(format!("builder refused a recipient set: {e}"));
+                            continue;
+                        }
+                    };
+                    if m1.sk == m2.sk && s1.sym == s2.sym {
+                        ctx.inconclusive("two builds produced the same session key");
+                        continue;
+                    }
+                    let (p1, p2) = match (split_packets(&m1.bytes), split_packets(&m2.bytes)) {
+                        (Ok(x), Ok(y)) if x.len() == 3 && y.len() == 5 => (x, y),
+                        _ => {
+                            ctx.inconclusive("reference cannot deframe a library message");
+                            continue;
+                        }
+                    };
+                    // library order: SKESKs then PKESKs
+                    let (sk_p1, pk_a1, data1) = (&p1[0].2, &p1[1].2, &p1[2].2);
+                    let (sk_p2, sk_q2, pk_a2, pk_b2) = (&p2[0].2, &p2[1].2, &p2[2].2, &p2[3].2);
+                    let mut t = Truth {
+                        v2,
+                        payload: s1.payload.clone(),
+                        sks: vec![(u8::from(s1.sym), m1.sk.clone()), (u8::from(s2.sym), m2.sk.clone())],
+                        key_holders: vec![],
+                        pw_holders: vec![],
+                        skesk4: vec![],
+                    };
+                    let mut esks: Vec<&Vec<u8>> = vec![];
+                    // presentations: (keys, passwords, explicit session keys)
+                    let mut sets: Vec<(Vec<usize>, Vec<&str>, Vec<usize>)> = vec![];
+                    match shape_name {
+                        "pk-sk" => {
+                            esks = vec![pk_a1, sk_q2];
+                            t.key_holders = vec![(a, 0)];
+                            t.pw_holders = vec![(pw_q.clone(), 1)];
+                            sets = vec![(vec![a], vec![&pw_q], vec![]), (vec![a], vec![], vec![]), (vec![], vec![&pw_q], vec![])];
+                        }
+                        "sk-pk" => {
+                            esks = vec![sk_p1, pk_b2];
+                            t.pw_holders = vec![(pw_p.clone(), 0)];
+                            t.key_holders = vec![(b, 1)];
+                            sets = vec![(vec![b], vec![&pw_p], vec![]), (vec![], vec![&pw_p], vec![]), (vec![b], vec![], vec![])];
+                        }
+                        "pk-pk" => {
+                            esks = vec![pk_a1, pk_b2];
+                            t.key_holders = vec![(a, 0), (b, 1)];
+                            sets = vec![(vec![a, b], vec![], vec![]), (vec![b, a], vec![], vec![]), (vec![a], vec![], vec![]), (vec![b], vec![], vec![])];
+                        }
+                        "pk-pk-same-key" => {
+                            esks = vec![pk_a1, pk_a2];
+                            t.key_holders = vec![(a, 0), (a, 1)];
+                            sets = vec![(vec![a], vec![], vec![]), (vec![b, a], vec![], vec![])];
+                        }
+                        "sk-sk" => {
+                            esks = vec![sk_p1, sk_q2];
+                            t.pw_holders = vec![(pw_p.clone(), 0), (pw_q.clone(), 1)];
+                            sets = vec![(vec![], vec![&pw_p, &pw_q], vec![]), (vec![], vec![&pw_q, &pw_p], vec![]), (vec![], vec![&pw_q], vec![])];
+                        }
+                        "sk-sk-same-password" => {
+                            esks = vec![sk_p1, sk_p2];
+                            t.pw_holders = vec![(pw_p.clone(), 0), (pw_p.clone(), 1)];
+                            sets = vec![(vec![], vec![&pw_p], vec![]), (vec![a], vec![&pw_p], vec![])];
+                        }
+                        "pk-x" => {
+                            esks = vec![pk_a1];
+                            t.key_holders = vec![(a, 0)];
+                            sets = vec![(vec![a], vec![], vec![1]), (vec![b, a], vec![], vec![1]), (vec![], vec![], vec![1])];
+                        }
+                        "sk-x" => {
+                            esks = vec![sk_p1];
+                            t.pw_holders = vec![(pw_p.clone(), 0)];
+                            sets = vec![(vec![], vec![&pw_p], vec![1]), (vec![], vec![&pw_p], vec![0, 1])];
+                        }
+                        "x-x" => {
+                            esks = vec![pk_a1];
+                            t.key_holders = vec![(a, 0)];
+                            sets = vec![(vec![], vec![], vec![0, 1]), (vec![], vec![], vec![1, 0]), (vec![], vec![], vec![0, 0, 1])];
+                        }
+                        "pk-sk-x" => {
+                            esks = vec![pk_a1, sk_p1];
+                            t.key_holders = vec![(a, 0)];
+                            t.pw_holders = vec![(pw_p.clone(), 0)];
+                            sets = vec![(vec![a], vec![&pw_p], vec![1]), (vec![a], vec![&pw_p], vec![0, 1])];
+                        }
+                        _ => {
+                            // control: everything agrees
+                            esks = vec![sk_p1, pk_a1];
+                            t.key_holders = vec![(a, 0)];
+                            t.pw_holders = vec![(pw_p.clone(), 0)];
+                            sets = vec![(vec![a], vec![&pw_p], vec![0]), (vec![a], vec![&pw_p], vec![]), (vec![b, a], vec![&pw_p], vec![0, 0])];
+                        }
+                    }
+                    if rng.gen() {
+                        esks.reverse();
+                    }
+                    let mut bytes = vec![];
+                    for e in &esks {
+                        bytes.extend_from_slice(e);
+                    }
+                    bytes.extend_from_slice(data1);
+                    t.skesk4 = skesk4_bodies(&bytes);
+                    let shape = format!(
+                        "{}|conflict:{shape_name}{}|{}",
+                        if v2 { "v2" } else { "v1" },
+                        if alg_only { "(alg-only)" } else { "" },
+                        pool.keys[a].label
+                    );
+                    crate::core::describe_case(&format!("C18 family C {shape}"));
+                    ctx.seen("conflict.shape", format!("{shape_name}|{}", if v2 { "v2" } else { "v1" }));
+                    if alg_only {
+                        ctx.seen("conflict.shape", "alg-only|v1");
+                    }
+                    for (ks, ps, xs) in &sets {
+                        for ae in [false, true] {
+                            let mut p = Pres::new(Api::Ring(ae));
+                            for k in ks {
+                                p = p.with_key(pool, *k, FORMS[rng.gen_range(0..4)]);
+                            }
+                            for w in ps {
+                                p = p.with_pw(w);
+                            }
+                            for x in xs {
+                                p = p.with_sk(SkP::Id(*x));
+                            }
+                            check_negative(ctx, pool, &t, &bytes, &p, "C", &shape, &mut rng);
+                        }
+                        // convenience entry points where they apply
+                        if ps.is_empty() && xs.is_empty() && ks.len() == 1 {
+                            let p = Pres::new(Api::Decrypt).with_key(pool, ks[0], FORMS[rng.gen_range(0..4)]);
+                            check_negative(ctx, pool, &t, &bytes, &p, "C", &shape, &mut rng);
+                        } else if ps.is_empty() && xs.is_empty() {
+                            let mut p = Pres::new(Api::WithKeys);
+                            for k in ks {
+                                p = p.with_key(pool, *k, Form::Plain);
+                            }
+                            check_negative(ctx, pool, &t, &bytes, &p, "C", &shape, &mut rng);
+                        } else if ks.is_empty() && xs.is_empty() && ps.len() == 1 {
+                            check_negative(ctx, pool, &t, &bytes, &Pres::new(Api::WithPassword).with_pw(ps[0]), "C", &shape, &mut rng);
+                        } else if ks.is_empty() && ps.is_empty() && xs.len() == 1 {
+                            check_negative(ctx, pool, &t, &bytes, &Pres::new(Api::WithSessionKey).with_sk(SkP::Id(xs[0])), "C", &shape, &mut rng);
+                        }
+                    }
+                }
+            }
+        }
+    }
+}
+
+// ------------------------------------------------------------------------------------------
+// family D: two SKESK v4 where the second password passes the plausibility check of the first
+// packet (directed witness search with the reference S2K + CFB)
+
+fn fam_d(ctx: &mut Ctx, pool: &Pool) {
+    let reps = ctx.qt(1u64, 8u64);
+    for rep in 0..reps {
+        for (ci, sym) in V1_CIPHERS.iter().enumerate() {
+            for s2k in 0..S2K_KINDS.len() {
+                if !ctx.mine() {
+                    continue;
+                }
+                let tag = (rep * 1000 + ci as u64 * 10 + s2k as u64) as u64;
+                let pw_a = format!("first-password-{tag}");
+                let mut spec = MsgSpec::new(false, *sym, b"two passwords".to_vec());
+                spec.pws = vec![(pw_a.clone(), s2k), ("placeholder".to_string(), s2k + 1)];
+                crate::core::describe_case(&format!("C18 family D cipher {} s2k {}", u8::from(*sym), S2K_KINDS[s2k]));
+                let mut rng = ctx.rng("D", tag);
+                let Ok(m0) = build(pool, &spec, &mut rng) else {
+                    ctx.inconclusive("builder refused two passwords");
+                    continue;
+                };
+                let bodies = skesk4_bodies(&m0.bytes);
+                if bodies.len() != 2 {
+                    ctx.inconclusive("reference cannot deframe a library message");
+                    continue;
+                }
+                // search a second password that the first SKESK v4 "accepts"
+                let mut found = None;
+                for c in 0..6000u32 {
+                    let cand = format!("second-password-{tag}-{c}");
+                    if let Some((alg, key)) = rfc::sym::skesk_v4_decrypt(&bodies[0], cand.as_bytes()) {
+                        if alg != 0 && rfc::sym::key_size(alg) == Some(key.len()) {
+                            found = Some(cand);
+                            break;
+                        }
+                    }
+                }
+                let Some(pw_b) = found else {
+                    ctx.inconclusive("no colliding password found in 6000 candidates");
+                    continue;
+                };
+                // rebuild with the same randomness: only the second password changes
+                spec.pws[1].0 = pw_b.clone();
+                let mut rng = ctx.rng("D", tag);
+                let Ok(m) = build(pool, &spec, &mut rng) else {
+                    ctx.inconclusive("builder refused two passwords");
+                    continue;
+                };
+                let t = Truth::of(&spec, &m);
+                let probe = Pres::new(Api::WithPassword).with_pw(&pw_b);
+                if !skesk4_cross_accept(&t, &probe) {
+                    ctx.inconclusive("rebuilt message lost the collision");
+                    continue;
+                }
+                ctx.tally("D.collision-messages", 1);
+                ctx.seen("D.cipher", format!("{}", u8::from(*sym)));
+                let shape = format!("v1||{},{}|collision", S2K_KINDS[s2k], S2K_KINDS[(s2k + 1) % S2K_KINDS.len()]);
+                for api in [Api::WithPassword, Api::Ring(true), Api::Ring(false)] {
+                    let mut p = probe.clone();
+                    p.api = api;
+                    check(ctx, pool, &t, &m.bytes, &p, "D", &shape, false);
+                }
+                check(ctx, pool, &t, &m.bytes, &Pres::new(Api::WithPassword).with_pw(&pw_a), "D", &shape, false);
+            }
+        }
+    }
+}
+
+// ------------------------------------------------------------------------------------------
+// family E: explicit session keys of every cipher, every kind of wrong session key
+
+fn fam_e(ctx: &mut Ctx, pool: &Pool) {
+    let reps = ctx.qt(1u64, 20u64);
+    let mut combos: Vec<(bool, SymmetricKeyAlgorithm, AeadAlgorithm)> = vec![];
+    for s in V1_CIPHERS {
+        combos.push((false, s, AeadAlgorithm::Ocb));
+    }
+    for s in V2_CIPHERS {
+        for a in AEADS {
+            combos.push((true, s, a));
+        }
+    }
+    // directed: CAST5 session key ending in a zero octet, presented without that octet
+    for rep in 0..reps {
+        if !ctx.mine() {
+            continue;
+        }
+        let mut rng = ctx.rng("E.cast5", rep);
+        let mut spec = MsgSpec::new(false, SymmetricKeyAlgorithm::CAST5, gen_payload(&mut rng));
+        spec.pws = vec![(format!("e-cast5-{rep}"), rep as usize)];
+        let mut sk = vec![0u8; 16];
+        rng.fill_bytes(&mut sk[..15]);
+        spec.forced_sk = Some(sk);
+        let Ok(m) = build(pool, &spec, &mut rng) else {
+            ctx.inconclusive("builder refused a forced session key");
+            continue;
+        };
+        let t = Truth::of(&spec, &m);
+        let shape = format!("{}|sk-cast5-zero-tail", spec.shape(pool));
+        crate::core::describe_case("C18 family E CAST5 truncated session key");
+        for api in [Api::WithSessionKey, Api::Ring(true), Api::Ring(false)] {
+            let p = Pres::new(api).with_sk(wrong_sk(&t, "short", &mut rng));
+            check(ctx, pool, &t, &m.bytes, &p, "E", &shape, false);
+            check(ctx, pool, &t, &m.bytes, &Pres::new(api).with_sk(SkP::Id(0)), "E", &shape, false);
+        }
+    }
+    for rep in 0..reps {
+        for (ci, (v2, sym, aead)) in combos.iter().enumerate() {
+            if !ctx.mine() {
+                continue;
+            }
+            let mut rng = ctx.rng("E", rep * 100 + ci as u64);
+            let mut spec = MsgSpec::new(*v2, *sym, gen_payload(&mut rng));
+            spec.aead = *aead;
+            spec.pws = vec![(format!("e-{rep}-{ci}"), ci)];
+            let Ok(m) = build(pool, &spec, &mut rng) else {
+                ctx.inconclusive("builder refused a password recipient");
+                continue;
+            };
+            let t = Truth::of(&spec, &m);
+            let shape = format!("{}|sk-matrix", spec.shape(pool));
+            crate::core::describe_case(&format!("C18 family E {shape} cipher {}", u8::from(*sym)));
+            ctx.seen(if *v2 { "session-key.cipher.v6" } else { "session-key.cipher.v3_4" }, format!("{}", u8::from(*sym)));
+            for api in [Api::WithSessionKey, Api::Ring(true), Api::Ring(false)] {
+                let mut p = Pres::new(api).with_sk(SkP::Id(0));
+                check(ctx, pool, &t, &m.bytes, &p, "E", &shape, false);
+                p.streaming = true;
+                if api != Api::WithSessionKey {
+                    check(ctx, pool, &t, &m.bytes, &p, "E", &shape, false);
+                }
+                for kind in WRONG_SK_KINDS {
+                    ctx.seen("wrong-session-key.kind", kind);
+                    let p = Pres::new(api).with_sk(wrong_sk(&t, kind, &mut rng));
+                    check_negative(ctx, pool, &t, &m.bytes, &p, "E", &shape, &mut rng);
+                }
+            }
+        }
+    }
+}
 
 pub fn run(ctx: &mut Ctx) {
-    ctx.inconclusive("monitor not built yet");
+    let pool = Pool::new();
+    ctx.extra.insert("key_pool".into(), json!(pool.keys.iter().map(|k| k.label.clone()).collect::<Vec<_>>()));
+    fam_a(ctx, &pool);
+    fam_b(ctx, &pool);
+    fam_c(ctx, &pool);
+    fam_d(ctx, &pool);
+    fam_e(ctx, &pool);
 }
